@@ -28,15 +28,36 @@ def j2y(j):
     return j
 
 
+TIMEOUT_S = float(os.environ.get("VERIF_MODEL_TIMEOUT", "120"))
+TIMEOUTS = []          # requests on which the model driver did not answer in time (reported as "unsupported by the model")
+
+
 class Driver:
     def __init__(self):
         self.p = subprocess.Popen([DRIVER], stdin=subprocess.PIPE, stdout=subprocess.PIPE, text=True, bufsize=1)
         self.requests = 0
 
     def call(self, req):
+        """One request, one reply.  The model's regex engine enumerates ALL results of a match (that is what the theorems
+        are about) and can take exponentially long on a rule the real engine answers at once; a request that is not
+        answered within TIMEOUT_S is abandoned: the driver is restarted and the case counts as unsupported by the model
+        (never as a disagreement - nothing was compared)."""
+        import select
         self.requests += 1
         self.p.stdin.write(json.dumps(req) + "\n")
         self.p.stdin.flush()
+        ready, _, _ = select.select([self.p.stdout], [], [], TIMEOUT_S)
+        if not ready:
+            self.p.kill()
+            self.p.wait()
+            TIMEOUTS.append(json.dumps(req)[:2000])
+            try:
+                with open(os.path.join(HERE, "..", "replays", "model-timeout-last.json"), "w") as fh:
+                    fh.write(json.dumps(req))
+            except OSError:
+                pass
+            self.p = subprocess.Popen([DRIVER], stdin=subprocess.PIPE, stdout=subprocess.PIPE, text=True, bufsize=1)
+            return {"unsup": "model driver did not answer within %d s" % TIMEOUT_S}
         line = self.p.stdout.readline()
         if not line:
             raise RuntimeError("model driver died on request: " + json.dumps(req)[:500])
